@@ -3,6 +3,7 @@
 package tensor
 
 import (
+	"reflect"
 	"unsafe"
 
 	"gorgonia.org/tensor/internal/vsync"
@@ -70,4 +71,36 @@ func VerifPoolHash() uint64 {
 		h ^= 1
 	}
 	return h
+}
+
+// VerifPoolDuplicates counts, over every sync.Pool of the library (the shim keeps their free lists), the items that are
+// in one free list more than once: an object handed back twice will be handed out to two borrowers.
+func VerifPoolDuplicates() (dup int, what string) {
+	for _, p := range vsync.All() {
+		seen := map[uintptr]bool{}
+		for _, it := range p.Items() {
+			v := reflect.ValueOf(it)
+			var key uintptr
+			switch v.Kind() {
+			case reflect.Ptr, reflect.UnsafePointer:
+				key = v.Pointer()
+			case reflect.Slice:
+				if v.Cap() == 0 {
+					continue
+				}
+				key = v.Pointer()
+			default:
+				continue
+			}
+			if key == 0 {
+				continue
+			}
+			if seen[key] {
+				dup++
+				what = reflect.TypeOf(it).String()
+			}
+			seen[key] = true
+		}
+	}
+	return
 }
